@@ -10,7 +10,7 @@ CONSTANTS
   Cap = 2
   IdBits = 4
   MaxNow = 2
-  MaxHist = 5
+  MaxHist = 6
   Routing = FALSE
   QueryTargets = {}
   DeadIds = {}
